@@ -254,6 +254,89 @@ fn reverse<T: Fl>(ctx: &Ctx, g: &Graph<T>, levels: u32, total: &mut Collector) {
     total.exhaustive(&sub, true, &format!("{} (RGB node, cylindrical node) pairs x the complete {}^3 grid of RGB levels k/{} (256: all 2^24 8-bit colours)", pairs.len(), levels, levels - 1));
 }
 
+/// Dark colours: the RGB grid scaled by 1e-2 .. 1e-5 -> HSV / HSLuv -> RGB must return the colour with
+/// an error small RELATIVE to the colour's size; an absolute tolerance cannot see a guard that flattens
+/// everything darker than some threshold. Only HSV (value = max, saturation = a ratio) and HSLuv (L* is
+/// linear in Y down there, u', v' are ratios) are scale-covariant *as published*; the HSL / HWB formulas
+/// (1 − |2L − 1|, 1 − blackness) and the Ok toe function subtract O(1) quantities, so their dark colours
+/// are only defined to an absolute accuracy. HSLuv colours below L* = 1e-4 are left out: the CIELUV
+/// code treats L* < 1e-5 as black (a division guard), which is inside the property's absolute tolerance.
+fn reverse_dark<T: Fl>(ctx: &Ctx, g: &Graph<T>, total: &mut Collector) {
+    let sub = format!("reverse-dark/{}/{}", g.name, T::NAME);
+    if !ctx.wants(&sub) {
+        return;
+    }
+    let n = g.n();
+    let levels = 7u32;
+    let mut pairs: Vec<(usize, usize)> = vec![];
+    for r in (0..n).filter(|&i| matches!(g.nodes[i].kind, Kind::Rgb(_))) {
+        for c in 0..n {
+            if matches!(g.nodes[c].kind, Kind::Hsv(_) | Kind::Hsluv(_)) && rgb_partners(g, &g.nodes[c].kind).contains(&r) && g.unc[r][c].is_some() && g.unc[c][r].is_some() {
+                pairs.push((r, c));
+            }
+        }
+    }
+    let pairs_ref = &pairs;
+    let cc = pv::par::run_chunks(pairs.len(), |ci, c| {
+        let (r, k) = pairs_ref[ci];
+        let kk = g.nodes[k].kind;
+        let (fwd, back) = (g.unc[r][k].unwrap(), g.unc[k][r].unwrap());
+        // HSV: rounding only; HSLuv: the f32 round-trip tolerance of the bright grid / the 7-digit matrices in f64
+        let f32_ = T::NAME == "f32";
+        let hsluv = matches!(kk, Kind::Hsluv(_));
+        let tol = if hsluv { if f32_ { 2e-4 } else { 1e-6 } } else if f32_ { 2e-5 } else { 1e-11 };
+        let q = (levels - 1) as f64;
+        let (mut st, mut tr) = (0u64, 0u64);
+        for sc in [1e-2, 1e-3, 1e-4, 1e-5] {
+            for ri in 0..levels {
+                for gi in 0..levels {
+                    for bi in 0..levels {
+                        if ri + gi + bi == 0 {
+                            continue;
+                        }
+                        let v = [T::from64(sc * ri as f64 / q), T::from64(sc * gi as f64 / q), T::from64(sc * bi as f64 / q)];
+                        st += 1;
+                        tr += 2;
+                        let xyz = g.nodes[r].kind.to_xyz(to64(v));
+                        if hsluv && pv::refmodel::cie::KAPPA * xyz[1] < 1e-4 {
+                            continue;
+                        }
+                        let cls = "";
+                        let res = pv::catch(|| {
+                            let m = fwd(v);
+                            (m, back(m))
+                        });
+                        let mk = |what: &str, obs: Value, exp: Value| json!({"sub": "reverse-dark", "what": what, "group": g.name, "float": T::NAME, "path": [g.nodes[r].name, g.nodes[k].name], "input": hex(&v), "value": to64(v), "observed": obs, "expected": exp});
+                        match res {
+                            Err(msg) => c.violation(&format!("C15/reverse-dark/{}/{}/{}->{}/panic", g.name, T::NAME, g.nodes[r].name, g.nodes[k].name), 1.0, || mk("convert", json!({"panic": msg}), json!("no panic"))),
+                            Ok((m, b)) => {
+                                let (b64, v64) = (to64(b), to64(v));
+                                let size = v64.iter().fold(0.0f64, |a, x| a.max(x.abs()));
+                                let mut d: f64 = 0.0;
+                                for i in 0..3 {
+                                    let e = (b64[i] - v64[i]).abs() / size;
+                                    if e.is_nan() || e > d {
+                                        d = e;
+                                    }
+                                }
+                                if d <= tol {
+                                    c.ratio(&format!("reverse-dark/{}", g.nodes[k].name.split('<').next().unwrap_or("")), d / tol, || mk("roundtrip", json!({"back": b64}), json!(null)));
+                                } else {
+                                    c.violation(&format!("C15/reverse-dark/{}/{}/{}->{}/{}{}", g.name, T::NAME, g.nodes[r].name, g.nodes[k].name, if d.is_nan() { "NaN" } else { "finite-off" }, cls), d, || mk("dark RGB -> cylindrical space -> RGB, error relative to the colour's size", json!({"via": to64(m), "back": b64, "relative_err": pv::report::fnum(d)}), json!({"back": v64, "relative_tol": tol})));
+                                }
+                                c.outcome(m[0].bits64() ^ m[1].bits64().rotate_left(21) ^ m[2].bits64().rotate_left(42));
+                            }
+                        }
+                    }
+                }
+            }
+        }
+        c.add(&sub, st, tr, st, st);
+    });
+    total.merge(cc);
+    total.exhaustive(&sub, true, &format!("{} (RGB node, HSV or HSLuv node) pairs x the 7^3 grid of RGB levels scaled by 1e-2, 1e-3, 1e-4, 1e-5 (black excluded; HSLuv: colours with L* >= 1e-4): round trip with the error relative to the colour's largest component", pairs.len()));
+}
+
 macro_rules! with_graph {
     ($group:expr, $float:expr, |$g:ident| $body:expr) => {
         match ($group, $float) {
@@ -346,6 +429,14 @@ fn real_main() -> i32 {
     reverse(&ctx, &pgd::d50_f64(), lv_other, &mut total);
     reverse(&ctx, &pgd::dci_f32(), lv_other, &mut total);
     reverse(&ctx, &pgd::dci_f64(), lv_other, &mut total);
+    reverse_dark(&ctx, &pga::d65_f32(), &mut total);
+    reverse_dark(&ctx, &pgb::d65_f64(), &mut total);
+    reverse_dark(&ctx, &pgc::d65cyl_f32(), &mut total);
+    reverse_dark(&ctx, &pgc::d65cyl_f64(), &mut total);
+    reverse_dark(&ctx, &pgd::d50_f32(), &mut total);
+    reverse_dark(&ctx, &pgd::d50_f64(), &mut total);
+    reverse_dark(&ctx, &pgd::dci_f32(), &mut total);
+    reverse_dark(&ctx, &pgd::dci_f64(), &mut total);
     ctx.finish(
         total,
         "model_checking",
